@@ -466,12 +466,15 @@ def grid_round(rep, r, tier):
             ('orient_near', dict(iop=list(np.array(series['iop']) + np.array([0, 1e-6, 0, 0, 0, 0]))), 'ImageCollisionError'),
             ('no_pixels', dict(with_pixels=False), 'NonImageDataSetError'),
             ('collision', dict(), 'ImageCollisionError'),
+            ('collision_other_tr', dict(meta=dict(f['meta'], RepetitionTime=1234.5,
+                                                  InPlanePhaseEncodingDirection='COL' if f['meta'].get('InPlanePhaseEncodingDirection') != 'COL' else 'ROW')),
+             'ImageCollisionError'),
         ]
         for name, over, want in probes:
             rep.evaluations += 1
             rep.count('add/' + name)
             rep.nontriv([ci, 'add', name])
-            before = (len(st._files_info), st.get_shape())
+            before = (len(st._files_info), st.get_shape(), nii_digest(quiet(st.to_nifti, 'LAS', True)))
             try:
                 with warnings.catch_warnings():
                     warnings.simplefilter('ignore')
@@ -483,7 +486,7 @@ def grid_round(rep, r, tier):
                 rep.failure('add_dcm of a file with %s: %s, expected %s' % (name, got, want),
                             {'tag': 'grid:add:' + name, 'suite': 'grid', 'series': series, 'probe': name})
             try:
-                after = (len(st._files_info), st.get_shape())
+                after = (len(st._files_info), st.get_shape(), nii_digest(quiet(st.to_nifti, 'LAS', True)))
             except Exception as e:
                 after = repr(e)
             if got != 'ok' and after != before:
